@@ -165,10 +165,13 @@ class World:
         self.faults = collections.Counter()
         self.probes = collections.Counter()
         self.h = hashlib.blake2b(digest_size=8)
+        self.frozen = False
         self.nevents = 0
 
     # -- logging ---------------------------------------------------------
     def ev(self, kind, a='', b='', c=''):
+        if self.frozen:
+            return      # teardown (cancelling what is left) is not part of the run
         self.h.update(f'{kind}|{a}|{b}|{c};'.encode())
         self.nevents += 1
         if self.trace is not None:
@@ -325,6 +328,7 @@ class World:
             self.probes['callback_failures'] += len(loop.callback_failures)
             self.internal_errors = ([repr(e)[:200] for _, e in loop.task_failures][:3] +
                                     [repr(ctx.get('exception'))[:200] for ctx in loop.callback_failures][:3])
+            self.frozen = True
             loop.shutdown()
             ci.SIM = None
         return self.result()
